@@ -79,6 +79,15 @@ EXTRA_PROGRAMS = [
     "f(1, b=2,)",
     "a { b: 1 }",
     "local f(a,) = a; f(1,)",
+    # object comprehensions with several specs; field values that are functions, with and without `+`
+    "local xs = ['a', 'b']; { [k]: 1 for k in xs if k != 'b' }",
+    "local xs = ['a', 'b'], ys = [1]; { [k + y]: y for k in xs for y in ys if y > 0 if k != 'b' }",
+    "{ [k]: v for k in ['a'] for v in [1, 2] if v > 1 }",
+    "local xs = [1, 2]; [x for x in xs if x > 1 for y in xs if y > 0]",
+    "{ f: function(x) x + 1, g:: function(x, y=2) x + y, h::: function() 1 }",
+    "{ f: 1 } + { f+: function(x) x }",
+    "{ f:: 1 } + { f+:: function(x, y=1) [x, y], g+::: function() 0 }",
+    "{ local f = function(x) x, a: f(1), m(x): x, n(x, y=1):: x + y }",
 ]
 
 
